@@ -1,3 +1,3 @@
 SPECIFICATION ESpec
-INVARIANTS SourceAllowed Independent
+INVARIANTS SourceAllowed Independent HistoryIndependent
 CHECK_DEADLOCK FALSE
